@@ -16,6 +16,9 @@ let types : (string * ty * string list) list = [
   ("LcBootstrapKey", TLcBootstrapKey, ["BlockHash"]);
   ("LcFinalityKey", TLcFinalityKey, ["FinalizedSlot"]);
   ("LcOptimisticKey", TLcOptimisticKey, ["OptimisticSlot"]);
+  ("BodyLegacy", TBodyLegacy, ["Transactions"; "Uncles"]);
+  ("BodyShanghai", TBodyShanghai, ["Transactions"; "Uncles"; "Withdrawals"]);
+  ("EpochAcc", TEpochAcc, ["HeaderRecords"]);
 ]
 (* second table: state network (ztyp) and the ztyp beacon key *)
 let types2 : (string * ty2 * string list) list = [
